@@ -222,7 +222,13 @@ static void staticArrayCase(Rng& rng, unsigned maxOps, const char* tname) {
 			checkAll("store");
 		} else if (op < 7) {
 			const T v = mk<T>(rng.next());
-			a.fill(v); std::fill(m.begin(), m.end(), v); clearedOnly = false; nontrivial = true;
+			// the value is handed over as a named constant, as a temporary, or as an expiring named object
+			switch (rng.below(3)) {
+			case 0: a.fill(v); break;
+			case 1: a.fill(T(v)); break;
+			default: { T named = v; a.fill(static_cast<T&&>(named)); break; }
+			}
+			std::fill(m.begin(), m.end(), v); clearedOnly = false; nontrivial = true;
 			l.op("fill"); g_stats.add2("ops", "sarr.fill");
 			checkAll("fill");
 		} else if (op < 9) {
@@ -370,6 +376,7 @@ static void capacityCases(Rng& rng, unsigned casesPer, unsigned maxOps) {
 		staticArrayCase<uint8_t, C>(rng, maxOps, "u8");
 		staticArrayCase<uint32_t, C>(rng, maxOps, "u32");
 		staticArrayCase<Five, C>(rng, maxOps, "five");
+		staticArrayCase<Tok, C>(rng, maxOps, "move-aware");
 		dynamicArrayCase<uint8_t, C>(rng, maxOps, "u8");
 		dynamicArrayCase<uint32_t, C>(rng, maxOps, "u32");
 		dynamicArrayCase<Five, C>(rng, maxOps, "five");
